@@ -165,7 +165,7 @@ func c14(c *Ctx) {
 					}
 				} else {
 					argLists, conf = append(argLists, base), append(conf, true)
-					argLists, conf = append(argLists, append(append([]string{}, base...), "1")), append(conf, false) // one too many
+					argLists, conf = append(argLists, append(append([]string{}, base...), "1")), append(conf, false)   // one too many
 					argLists, conf = append(argLists, append(append([]string{}, base...), "$.a")), append(conf, false) // … the surplus one a path of type Any
 					argLists, conf = append(argLists, append(append([]string{}, base...), "$.s")), append(conf, false) // … or a typed path
 				}
